@@ -665,3 +665,123 @@ func TestVerifC16Set(t *testing.T) {
 		}
 	})
 }
+
+// ---------------------------------------------------------------- Cache expiry (real timing wheel, 1 s ticks)
+
+// An entry set with expiry e is still returned well before 0.95·e and is gone (Get misses, Take
+// calls the loader) after 1.05·e plus two wheel ticks; re-setting a key restarts its expiry;
+// a deleted key's timer does not remove a later entry early.  Real time: the "present" clause is
+// only asserted when the measured elapsed time is safely inside the window, the "gone" clause is
+// polled for 6 s beyond the bound before it is reported.
+func TestVerifC16CacheExpiry(t *testing.T) {
+	logx.Disable()
+	st := verifkit.New("cache-expiry")
+	defer st.Flush()
+	rapid.Check(t, func(t *rapid.T) {
+		st.Eval()
+		limit := rapid.SampledFrom([]int{0, 0, 4}).Draw(t, "limit")
+		var opts []collection.CacheOption
+		if limit > 0 {
+			opts = append(opts, collection.WithLimit(limit))
+		}
+		base := time.Duration(rapid.IntRange(2, 3).Draw(t, "cacheExpireS")) * time.Second
+		c, err := collection.NewCache(base, opts...)
+		if err != nil {
+			t.Fatal(err)
+		}
+		type ent struct {
+			key     string
+			expire  time.Duration
+			setAt   time.Time
+			reset   bool // set again after 1 s (expiry restarts)
+			delThenSet bool
+		}
+		n := rapid.IntRange(1, 4).Draw(t, "keys")
+		var ents []*ent
+		for i := 0; i < n; i++ {
+			e := &ent{key: fmt.Sprintf("k%d", i)}
+			e.expire = base
+			if rapid.Bool().Draw(t, "ownExpire") {
+				e.expire = time.Duration(rapid.IntRange(2, 4).Draw(t, "expireS")) * time.Second
+			}
+			e.reset = rapid.IntRange(0, 2).Draw(t, "reset") == 0
+			e.delThenSet = !e.reset && rapid.IntRange(0, 3).Draw(t, "delThenSet") == 0
+			ents = append(ents, e)
+		}
+		set := func(e *ent, v int) {
+			if e.expire == base {
+				c.Set(e.key, v)
+			} else {
+				c.SetWithExpire(e.key, v, e.expire)
+			}
+			e.setAt = time.Now()
+		}
+		for i, e := range ents {
+			set(e, i)
+		}
+		time.Sleep(time.Second)
+		for i, e := range ents {
+			if e.reset {
+				set(e, 100+i)
+			} else if e.delThenSet {
+				c.Del(e.key)
+				set(e, 200+i)
+			}
+		}
+		// "present" probes at a few instants
+		var maxGone time.Time
+		for _, e := range ents {
+			if g := e.setAt.Add(time.Duration(float64(e.expire)*1.05) + 2*time.Second); g.After(maxGone) {
+				maxGone = g
+			}
+		}
+		for time.Now().Before(maxGone) {
+			for i, e := range ents {
+				el := time.Since(e.setAt)
+				v, ok := c.Get(e.key)
+				el2 := time.Since(e.setAt)
+				safe := time.Duration(float64(e.expire)*0.95) - 1100*time.Millisecond
+				if el2 < safe {
+					want := i
+					if e.reset {
+						want = 100 + i
+					} else if e.delThenSet {
+						want = 200 + i
+					}
+					if !ok || v.(int) != want {
+						t.Fatalf("key %s (expire %v, reset=%v delThenSet=%v) missing or stale %v after only %v (Get=%v,%v)", e.key, e.expire, e.reset, e.delThenSet, want, el, v, ok)
+					}
+					st.Class("present-asserted")
+				}
+			}
+			time.Sleep(150 * time.Millisecond)
+		}
+		// "gone": poll up to 6 s beyond the bound
+		deadline := time.Now().Add(6 * time.Second)
+		for {
+			left := ""
+			for _, e := range ents {
+				if _, ok := c.Get(e.key); ok {
+					left = e.key
+				}
+			}
+			if left == "" {
+				break
+			}
+			if time.Now().After(deadline) {
+				t.Fatalf("key %s still present %v after it was set although its expiry is at most 1.05 x its expire + 2 ticks", left, time.Since(ents[0].setAt))
+			}
+			time.Sleep(100 * time.Millisecond)
+		}
+		calls := 0
+		if v, err := c.Take(ents[0].key, func() (any, error) { calls++; return -1, nil }); err != nil || calls != 1 || v.(int) != -1 {
+			t.Fatalf("Take after expiry: v=%v err=%v loader calls=%d", v, err, calls)
+		}
+		st.NonTrivial(fmt.Sprintf("base=%v n=%d reset/del=%v", base, n, func() (s string) {
+			for _, e := range ents {
+				s += fmt.Sprintf("%v/%v/%v ", e.expire, e.reset, e.delThenSet)
+			}
+			return
+		}()))
+	})
+}
